@@ -418,7 +418,7 @@ def grid_known_region(cfg, rid, active):
     if cfg in ("execcls", "bindcls"):
         if any(t in ("int", "str", "float", "bool") and d == NoneStr for t, d in es):
             return "KF-RT-class-none-to-zero"
-        if any(isinstance(d, str) and d == "" and t == "Optional[str]" for t, d in es):
+        if any(isinstance(d, str) and d == "" and t not in ("str", None) for t, d in es):
             return "KF-RT-class-empty-str-to-none"
     if cfg == "execarg" and any(code(d) for t, d in es):
         return "KF-C06-code-default-as-str"
